@@ -500,6 +500,9 @@ func init() {
 // (uniform variable syntax).
 func chainSX(ch corpus.Chain) string {
 	cur := ch.Base
+	if cur == "(new A)" {
+		cur = "Brackets(Expr:New(Class:A))"
+	}
 	prevKind, prevOperand := "", ""
 	for _, o := range ch.Ops {
 		before := cur
@@ -572,10 +575,10 @@ func c03Chains(c *core.Ctx) {
 			switch {
 			case !it.Valid:
 				cs.Aux, cs.Why = "invalid", "postfix chain rejected by the reference LR driver"
-			case f == f7 && ch.Base == "$a":
+			case f == f7 && (ch.Base == "$a" || ch.Base == "(new A)"):
 				cs.Aux = "sx:" + chainSX(ch)
 				cs.Why = "postfix chain (left-to-right fold)"
-			case f == f5 && ch.Base == "$a" && php5Fold(ch):
+			case f == f5 && (ch.Base == "$a" || ch.Base == "(new A)") && php5Fold(ch):
 				// property fetches, method calls, offsets and calls on a plain variable apply left to right in
 				// PHP 5 as well (the differences of uniform variable syntax need `$$`, `->$p[`, or `::`)
 				cs.Aux = "sx:" + chainSX(ch)
